@@ -40,6 +40,7 @@ type dtr struct {
 	resultTypes []types.Type
 	calls map[string]bool // functions called by the one being translated
 	curFunc string
+	mode    string // "drv" (package vedirect) or "api" (package vedirectapi)
 }
 
 type bnd struct {
@@ -94,6 +95,9 @@ func (t *dtr) coqType(ty types.Type) string {
 	case "*bytes.Reader":
 		return "(list byte)"
 	}
+	if t.mode == "api" {
+		return t.apiType(ty)
+	}
 	return ""
 }
 
@@ -109,6 +113,14 @@ func (t *dtr) zero(ty types.Type) string {
 		return "false"
 	case "unit":
 		return "tt"
+	case "Q":
+		return "(inject_Z 0)"
+	case "(Z * string)":
+		return "(0, EmptyString)"
+	case "(list (Z * bool))":
+		return "(@nil (Z * bool))"
+	case "(option apiobj)":
+		return "(@None apiobj)"
 	}
 	return ""
 }
@@ -189,6 +201,14 @@ func (t *dtr) varName(id *ast.Ident) string {
 }
 
 var errVars = map[string]string{"ErrUnknownId": "EUnknownId", "ErrorNotSupported": "ENotSupported", "ErrorParameterError": "EParameter"}
+var apiErrVars = map[string]string{"ErrCtxDone": "ECtxDone"}
+
+func (t *dtr) errVarTable() map[string]string {
+	if t.mode == "api" {
+		return apiErrVars
+	}
+	return errVars
+}
 
 // ---- purity (for dropped log texts) ----
 
@@ -202,6 +222,9 @@ func (t *dtr) effectFree(e ast.Expr) bool {
 			}
 			switch types.ExprString(x.Fun) {
 			case "len", "fmt.Sprintf", "byte":
+				return true
+			}
+			if t.mode == "api" && t.regAccessor(x) != "" {
 				return true
 			}
 			ok = false
@@ -321,6 +344,22 @@ func (t *dtr) ex(e ast.Expr) (pre []bnd, term string) {
 			return nil, zlit(tv.Value)
 		case constant.Bool:
 			return nil, tv.Value.String()
+		case constant.String:
+			str := constant.StringVal(tv.Value)
+			if str == "" {
+				return nil, "(@nil byte)"
+			}
+			var bs []string
+			for _, c := range []byte(str) {
+				bs = append(bs, fmt.Sprintf("%d", c))
+			}
+			return nil, "(map zb [" + strings.Join(bs, "; ") + "])"
+		case constant.Float:
+			if t.mode == "api" {
+				if v, ok := constant.Int64Val(constant.ToInt(tv.Value)); ok && constant.ToInt(tv.Value).Kind() == constant.Int {
+					return nil, fmt.Sprintf("(inject_Z %d)", v)
+				}
+			}
 		}
 		t.bad(e, "constant of kind %v", tv.Value.Kind())
 	}
@@ -334,7 +373,7 @@ func (t *dtr) ex(e ast.Expr) (pre []bnd, term string) {
 			}
 			t.bad(e, "nil of type %s", tv.Type)
 		}
-		if ev, ok := errVars[x.Name]; ok {
+		if ev, ok := t.errVarTable()[x.Name]; ok {
 			if obj, isVar := t.info.Uses[x].(*types.Var); isVar && obj.Parent() == t.pkg.Scope() {
 				return nil, "(Some " + ev + ")"
 			}
@@ -345,6 +384,11 @@ func (t *dtr) ex(e ast.Expr) (pre []bnd, term string) {
 			if g, ok := fieldGet[x.Sel.Name]; ok {
 				v := t.tmp()
 				return []bnd{{v, g, false}}, v
+			}
+		}
+		if t.mode == "api" {
+			if s := t.apiSelector(x); s != "" {
+				return nil, s
 			}
 		}
 		t.bad(e, "selector %s", types.ExprString(e))
@@ -463,6 +507,14 @@ func (t *dtr) binary(x *ast.BinaryExpr, tv types.TypeAndValue) ([]bnd, string) {
 			}
 			var r string
 			var p []bnd
+			if f := t.handlerFlag(other); f != "" {
+				if x.Op == token.NEQ {
+					return nil, f
+				} else if x.Op == token.EQL {
+					return nil, "(negb " + f + ")"
+				}
+				t.bad(x, "ordering with nil")
+			}
 			if f := t.cfgFlag(other); f != "" {
 				if x.Op == token.NEQ {
 					return nil, "(" + f + ")"
@@ -495,6 +547,15 @@ func (t *dtr) binary(x *ast.BinaryExpr, tv types.TypeAndValue) ([]bnd, string) {
 		op := map[token.Token]string{token.EQL: "(%s =? %s)", token.NEQ: "(negb (%s =? %s))", token.LSS: "(%s <? %s)",
 			token.LEQ: "(%s <=? %s)", token.GTR: "(%s >? %s)", token.GEQ: "(%s >=? %s)"}[x.Op]
 		return append(p1, p2...), fmt.Sprintf(op, a, b)
+	}
+	if t.mode == "api" && isFloat(tv.Type) {
+		op := map[token.Token]string{token.ADD: "Qplus", token.SUB: "Qminus", token.MUL: "Qmult", token.QUO: "Qdiv"}[x.Op]
+		if op == "" {
+			t.bad(x, "float operator %s", x.Op)
+		}
+		p1, a := t.ex(x.X)
+		p2, b := t.ex(x.Y)
+		return append(p1, p2...), fmt.Sprintf("(%s %s %s)", op, a, b)
 	}
 	w := arithWrap(tv.Type)
 	if w == "" {
@@ -663,6 +724,14 @@ func (t *dtr) errorf(call *ast.CallExpr) ([]bnd, string) {
 		t.bad(call, "Errorf: %%w argument")
 	}
 	p, e := t.ex(call.Args[1+idx])
+	if t.mode == "api" {
+		for _, a := range call.Args[1:] {
+			if c, ok := a.(*ast.CallExpr); ok && t.regAccessor(c) == "name_bytes" {
+				_, r := t.ex(c.Fun.(*ast.SelectorExpr).X)
+				return p, fmt.Sprintf("(gerr_wrap_name (name_bytes %s) %s)", r, e)
+			}
+		}
+	}
 	return p, "(gerr_wrap " + e + ")"
 }
 
@@ -683,6 +752,15 @@ func (t *dtr) call(x *ast.CallExpr, tv types.TypeAndValue) ([]bnd, string) {
 				return p, "(g_string_of_rune " + a + ")"
 			}
 			t.bad(x, "conversion of %s to string", at)
+		}
+		if t.mode == "api" && isFloat(to) {
+			if _, _, ok := intKind(at); ok {
+				return p, "(inject_Z " + a + ")"
+			}
+			if isFloat(at) {
+				return p, a
+			}
+			t.bad(x, "conversion of %s to float64", at)
 		}
 		w := wrapFn(to)
 		if w == "" {
@@ -767,6 +845,11 @@ func (t *dtr) call(x *ast.CallExpr, tv types.TypeAndValue) ([]bnd, string) {
 		}
 		p, a := t.ex(x.Args[0])
 		return p, "(g_trim_right_nul " + a + ")"
+	}
+	if t.mode == "api" {
+		if p, s, ok := t.apiCall(x, tv); ok {
+			return p, s
+		}
 	}
 	// methods of the receiver's fields, methods of the receiver, package functions
 	if sel, ok := x.Fun.(*ast.SelectorExpr); ok {
@@ -1027,7 +1110,21 @@ func (t *dtr) stmts(l []ast.Stmt, c *dctx) string {
 		if len(x.Results) == 0 {
 			return c.retT(t.resultTuple())
 		}
-		pre, vals := t.args(x.Results)
+		var pre []bnd
+		var vals []string
+		for i, r := range x.Results {
+			if isNilIdent(r) && i < len(t.resultTypes) && len(x.Results) == len(t.resultTypes) {
+				z := t.zero(t.resultTypes[i])
+				if z == "" {
+					t.bad(r, "nil of type %s", t.resultTypes[i])
+				}
+				vals = append(vals, z)
+				continue
+			}
+			p, v := t.ex(r)
+			pre = append(pre, p...)
+			vals = append(vals, v)
+		}
 		return wrapBinds(pre, c.retT(tuple(vals)))
 	case *ast.BranchStmt:
 		if x.Label != nil {
@@ -1104,6 +1201,10 @@ func (t *dtr) stmts(l []ast.Stmt, c *dctx) string {
 		return t.forStmt(x, rest, c)
 	case *ast.RangeStmt:
 		return t.rangeStmt(x, rest, c)
+	case *ast.SelectStmt:
+		if t.mode == "api" {
+			return t.selectStmt(x, rest, c)
+		}
 	}
 	t.bad(s, "statement %T", s)
 	return ""
@@ -1453,6 +1554,23 @@ func (t *dtr) assignedAll(l []ast.Stmt) []types.Object {
 }
 
 func (t *dtr) rangeStmt(x *ast.RangeStmt, rest []ast.Stmt, c *dctx) string {
+	if t.mode == "api" && x.Tok == token.DEFINE && t.isRegSlice(t.info.Types[x.X].Type) {
+		pre, l := t.ex(x.X)
+		if id, ok := x.Key.(*ast.Ident); !ok || id.Name != "_" {
+			t.bad(x, "range over registers with an index variable")
+		}
+		id, ok := x.Value.(*ast.Ident)
+		if !ok || id.Name == "_" {
+			t.bad(x, "range form")
+		}
+		vn := t.declare(t.info.Defs[id])
+		for _, o := range t.assignedAll(x.Body.List) {
+			if n, ok := t.names[o]; ok && n == vn {
+				t.bad(x, "range variable assigned in the body")
+			}
+		}
+		return wrapBinds(pre, t.loop(x, "range_regs", l, vn+" ", x.Body.List, rest, c))
+	}
 	if x.Tok != token.DEFINE || !isByteSlice(t.info.Types[x.X].Type) {
 		t.bad(x, "range form")
 	}
@@ -1616,13 +1734,27 @@ func (t *dtr) function(fd *ast.FuncDecl) string {
 }
 
 func translateDrv(repo, outPath string) {
+	translatePkg(repo, outPath, "drv", "vedirect",
+		[]string{"Ping", "GetDeviceId", "GetUint", "GetInt", "GetString", "VeCommandGet", "VeCommand"},
+		"From GV Require Import Vedirect.DrvSem.\nImport ListNotations.\nLocal Open Scope Z_scope.\n\n",
+		"GoLite-D -> Gallina translation of the serial driver (tie T-gen).")
+}
+
+func translateApi(repo, outPath string) {
+	translatePkg(repo, outPath, "api", "vedirectapi",
+		[]string{"ReadNumberRegister", "ReadTextRegister", "ReadEnumRegister", "ReadFieldListRegister", "StreamRegisterList"},
+		"From Coq Require Import QArith.\nFrom GV Require Import Vedirect.DrvSem Gen.DrvImpl Api.ApiSem.\nImport ListNotations.\nLocal Open Scope Z_scope.\n\n",
+		"GoLite-D -> Gallina translation of the register readers and the streaming loop (tie T-gen).")
+}
+
+func translatePkg(repo, outPath, mode, pkgName string, entries []string, header, title string) {
 	fset := token.NewFileSet()
-	dir := filepath.Join(repo, "vedirect")
+	dir := filepath.Join(repo, pkgName)
 	pkgs, err := parser.ParseDir(fset, dir, func(fi os.FileInfo) bool {
 		return !strings.HasSuffix(fi.Name(), "_test.go") && fi.Name() != "verif_hooks.go"
 	}, parser.ParseComments)
 	if err != nil {
-		fail("cannot parse vedirect: %v", err)
+		fail("cannot parse %s: %v", pkgName, err)
 	}
 	var files []*ast.File
 	var names []string
@@ -1639,16 +1771,22 @@ func translateDrv(repo, outPath string) {
 	conf := types.Config{Importer: importer.ForCompiler(fset, "source", nil)}
 	old, _ := os.Getwd()
 	_ = os.Chdir(repo)
-	pkg, err := conf.Check("github.com/koestler/go-victron/vedirect", fset, files, info)
+	pkg, err := conf.Check("github.com/koestler/go-victron/"+pkgName, fset, files, info)
 	_ = os.Chdir(old)
 	if err != nil {
-		fail("type-checking vedirect failed: %v", err)
+		fail("type-checking %s failed: %v", pkgName, err)
 	}
-	t := &dtr{fset: fset, info: info, pkg: pkg, funcs: map[string]*ast.FuncDecl{}}
+	t := &dtr{fset: fset, info: info, pkg: pkg, funcs: map[string]*ast.FuncDecl{}, mode: mode}
 	fileOf := map[string]string{}
 	for i, f := range files {
 		for _, d := range f.Decls {
 			if fd, ok := d.(*ast.FuncDecl); ok && fd.Body != nil {
+				if fd.Recv != nil && len(fd.Recv.List) == 1 {
+					rt := strings.TrimPrefix(types.ExprString(fd.Recv.List[0].Type), "*")
+					if rt != "Vedirect" && rt != "RegisterApi" {
+						continue // methods of other types are not translated
+					}
+				}
 				if _, dup := t.funcs[fd.Name.Name]; dup {
 					fail("outside GoLite-D: two functions named %s", fd.Name.Name)
 				}
@@ -1658,14 +1796,13 @@ func translateDrv(repo, outPath string) {
 		}
 	}
 	// the error variables must be what the class table says
-	for n := range errVars {
+	for n := range t.errVarTable() {
 		obj := pkg.Scope().Lookup(n)
 		if obj == nil || !isError(obj.Type()) {
 			fail("outside GoLite-D: error variable %s not found", n)
 		}
 	}
 	// translate everything reachable from the entry points, callees first
-	entries := []string{"Ping", "GetDeviceId", "GetUint", "GetInt", "GetString", "VeCommandGet", "VeCommand"}
 	text := map[string]string{}
 	var order []string
 	var visit func(name string, from string)
@@ -1700,8 +1837,8 @@ func translateDrv(repo, outPath string) {
 		visit(e, "entry")
 	}
 	var sb strings.Builder
-	fmt.Fprintf(&sb, "(* GENERATED by `gvgen drv` from %s/vedirect on every run -- do not edit.\n   GoLite-D -> Gallina translation of the serial driver (tie T-gen). *)\n", repo)
-	sb.WriteString("From GV Require Import Vedirect.DrvSem.\nImport ListNotations.\nLocal Open Scope Z_scope.\n\n")
+	fmt.Fprintf(&sb, "(* GENERATED by `gvgen %s` from %s/%s on every run -- do not edit.\n   %s *)\n", mode, repo, pkgName, title)
+	sb.WriteString(header)
 	for _, n := range order {
 		fmt.Fprintf(&sb, "(* %s: %s *)\n%s\n", fileOf[n], n, text[n])
 	}
